@@ -6,7 +6,9 @@ package main
 
 import (
 	"encoding/json"
+	bcrpb "github.com/google/fhir/go/proto/google/fhir/proto/r4/core/resources/bundle_and_contained_resource_go_proto"
 	ppb "github.com/google/fhir/go/proto/google/fhir/proto/r4/core/resources/patient_go_proto"
+	"google.golang.org/protobuf/types/known/anypb"
 	"math/rand"
 	"os"
 	"runtime"
@@ -108,6 +110,12 @@ func inputForm(name string, mr1 proto.Message) []fhir.Resource {
 		return []fhir.Resource{nil, one}
 	case "bundle":
 		return []fhir.Resource{lib.LoadModelResource("MR3").(fhir.Resource)}
+	case "bundle-empty-entries":
+		return []fhir.Resource{&bcrpb.Bundle{Entry: []*bcrpb.Bundle_Entry{{Resource: &bcrpb.ContainedResource{}}, {}, nil,
+			{Resource: &bcrpb.ContainedResource{OneofResource: &bcrpb.ContainedResource_Patient{}}}}}}
+	case "patient-empty-contained":
+		return []fhir.Resource{&ppb.Patient{Contained: []*anypb.Any{{}, nil, {TypeUrl: "type.googleapis.com/google.fhir.r4.core.ContainedResource"}},
+			Name: []*dtpb.HumanName{nil, {}}}}
 	}
 	lib.Fatal("unknown input form %q", name)
 	return nil
